@@ -164,11 +164,11 @@ def mstep_perm(kind, K, N=3, D=2, ctype='full', wca=(-1,), cov_norm='eigenvalue'
                     make, call, ensures, patches=patches, definedness=False, crosscheck=False, timeout=30.0, native_n=3)
 
 
-def fits_bounded_instance(tied_only=False):
+def fits_bounded_instance(tied_only=False, symmetric_only=False):
     from pb_bss.distribution import CACGMMTrainer, CWMMTrainer, GMMTrainer, VMFMMTrainer, GCACGMMTrainer, VMFCACGMMTrainer, CBMMTrainer
 
     def make(B):
-        return {'which': B.choose('which', ['cbmm-tied']) if tied_only else B.choose('which', ['cacgmm', 'cacgmm-mask', 'cwmm', 'gmm-full', 'gmm-diagonal', 'gmm-spherical', 'vmfmm', 'gcacgmm', 'vmfcacgmm', 'cbmm', 'cbmm-tied', 'gcacgmm-ipa', 'vmfcacgmm-ipa', 'gcacgmm-ipa', 'vmfcacgmm-ipa',
+        return {'which': B.choose('which', ['cbmm-tied']) if tied_only else B.choose('which', ['cacgmm', 'cacgmm-mask', 'cwmm', 'gmm-diagonal', 'gmm-spherical', 'vmfmm', 'gcacgmm', 'vmfcacgmm']) if symmetric_only else B.choose('which', ['cacgmm', 'cacgmm-mask', 'cwmm', 'gmm-full', 'gmm-diagonal', 'gmm-spherical', 'vmfmm', 'gcacgmm', 'vmfcacgmm', 'cbmm', 'cbmm-tied', 'gcacgmm-ipa', 'vmfcacgmm-ipa', 'gcacgmm-ipa', 'vmfcacgmm-ipa',
                                                                                        'cacgmm-aligner', 'cwmm-aligner']),
                 'K': B.choose('K', [2, 3, 3, 4]), 'it': B.choose('it', [1, 2, 5, 20]), 'wca': B.choose('wca', [(-1,), (-3,), (-3, -1)]),
                 'seed': B.choose('seed', list(range(3000))), 'd': B.given('d', np.zeros(1))}
@@ -197,6 +197,14 @@ def fits_bounded_instance(tied_only=False):
             # two classes with almost the same soft assignment: their scatter spectra agree to about 1e-5 without being equal
             init[:, 1] = init[:, 0] * (1 + 10.0 ** rng.uniform(-6, -3) * rng.normal(size=init[:, 0].shape))
             init /= init.sum(-2, keepdims=True)
+        if ((inp['seed'] // 7) % 4 == 0 or symmetric_only) and not tied and which in ('cacgmm', 'cacgmm-mask', 'cwmm', 'gmm-diagonal', 'gmm-spherical', 'vmfmm', 'gcacgmm', 'vmfcacgmm'):
+            # class-symmetric starts (an uninformative flat start, or two classes with exactly the same soft assignment): relabelling must
+            # still only relabel -- in particular the classes that start equal stay equal
+            if inp['seed'] % 2:
+                init = np.full((F, K, N), 1.0 / K)
+            else:
+                init[:, 1] = init[:, 0]
+                init /= init.sum(-2, keepdims=True)
         perm = rng.permutation(K)
         if K > 1 and np.array_equal(perm, np.arange(K)):
             perm = np.roll(perm, 1)            # never the identity
@@ -248,8 +256,8 @@ def fits_bounded_instance(tied_only=False):
         tol = {'rtol': 0.0, 'atol': 1e-9} if out['tied'] else {'rtol': 1e-5, 'atol': 1e-7}
         yield 'posterior-of-permuted-start-is-permuted-posterior', bool(np.allclose(out['perm'], np.asarray(out['base'])[:, out['p']], **tol))
 
-    return Instance('C05', DN + '*Trainer.fit', 'bounded-relabelled-fits-nearly-tied-classes' if tied_only else 'bounded-relabelled-fits', make, call, ensures,
-                    mode='bounded', bounded_n=60 if tied_only else 80, frame=False,
+    return Instance('C05', DN + '*Trainer.fit', 'bounded-relabelled-fits-nearly-tied-classes' if tied_only else ('bounded-relabelled-fits-class-symmetric-starts' if symmetric_only else 'bounded-relabelled-fits'), make, call, ensures,
+                    mode='bounded', bounded_n=60 if (tied_only or symmetric_only) else 80, frame=False,
                     raises=(ValueError, np.linalg.LinAlgError))
 
 
@@ -314,6 +322,7 @@ def instances(tier):
         out.append(mstep_perm(kind, 3))
     out.append(fits_bounded_instance())
     out.append(fits_bounded_instance(tied_only=True))
+    out.append(fits_bounded_instance(symmetric_only=True))
     out.append(assignment_relabelling_bounded_instance())
     return out
 
